@@ -14,7 +14,7 @@ RULE = ("for fixed (N,K) the multinomial family is complete, so E_p[f(n)] = G(p)
 ASSUMPTIONS = ["large counts are given in NumPy's default integer dtype (int64), as lists or as float64; narrower integer dtypes (int32/uint32) wrap in NumPy arithmetic by design and are outside the bound",
                "identity in p decided for the enumerated (N,K) only; larger N,K not covered",
                "float results on integer arrays are compared with the exact rational value to 1e-12 (relative and absolute)"]
-REQUIRED_CLASSES = {"all": ["count-vector-with-zero", "variance-checked", "two-sample", "negative-variance-estimate", "exact-fraction-path", "large-counts"]}
+REQUIRED_CLASSES = {"all": ["count-vector-with-zero", "variance-checked", "two-sample", "negative-variance-estimate", "exact-fraction-path", "large-counts", "narrow-dtype-labels"]}
 MIN_OUTCOMES = 8
 
 
@@ -251,6 +251,14 @@ def _check_vector(acc, n, M, g2, g4):
     vf = float(r)
     root = math.sqrt(vf) if vf >= 0 else float("nan")
     ok = (not raised(s)) and feq(s, root, rel=1e-12, abs_=0.0) and (not raised(s2)) and feq(s2, root, rel=1e-12, abs_=0.0)
+    # the same draw with its labels (category codes, in drawing order) held in small signed / unsigned integer dtypes
+    for dt in (np.uint8, np.uint32, np.int8):
+        s3 = acc.call(pyrepseq.stdpc, np.array(sample, dtype=dt))
+        p3 = acc.call(pyrepseq.pc, np.array(sample, dtype=dt))
+        acc.cls("narrow-dtype-labels")
+        if raised(s3) or not feq(s3, root, rel=1e-12, abs_=0.0) or raised(p3) or float(p3) != float(target_pc):
+            acc.fail("stdpc/labels-in-small-integer-dtype", case, (float(target_pc), root), (p3, s3), note=dt.__name__)
+            return
     if ok and target_var > Fraction(1, 10 ** 6):
         ok = feq(s, math.sqrt(float(target_var)), rel=1e-9)
     if not ok:
